@@ -229,3 +229,68 @@ Proof.
   destruct (map Some body ++ [None]) as [|o0 l0] eqn:E; [destruct body; discriminate|]. rewrite <- E. clear E o0 l0.
   rewrite has_none_inner_somes_none. rewrite last_last. rewrite List.removelast_last, somes_map, Hl. reflexivity.
 Qed.
+
+(* ------------------------------------------------------------------ rejection: a burst outside every window *)
+Lemma data_loop_far tol t : forall ds1 v ds2 done cl,
+  far tol v (vals t) -> data_loop tol t done cl (ds1 ++ v :: ds2) = IRErr IRStreamError \/
+  (exists k, (k < length ds1)%nat /\ data_loop tol t done cl (ds1 ++ v :: ds2) = IRErr IRStreamError).
+Proof.
+  intros ds1 v ds2 done cl Hf. left. revert done cl. induction ds1 as [|d ds1 IH]; intros done cl.
+  - cbn [app data_loop]. rewrite (far_first_match _ _ _ Hf). reflexivity.
+  - cbn [app data_loop]. destruct (first_match tol d (vals t)) as [e|]; [apply IH|reflexivity].
+Qed.
+
+Lemma data_loop_far_err tol t ds1 v ds2 done cl :
+  far tol v (vals t) -> data_loop tol t done cl (ds1 ++ v :: ds2) = IRErr IRStreamError.
+Proof. intros Hf. destruct (data_loop_far tol t ds1 v ds2 done cl Hf) as [H|[k [_ H]]]; exact H. Qed.
+
+(* ------------------------------------------------------------------ soundness of the data section *)
+(* whatever the input: when the data loop and the symbol lookup succeed, every measured duration lies in the
+   tolerance window of the nominal duration it was read as, and re-rendering the reported symbols gives exactly
+   those nominal durations *)
+Lemma push_flat pairs e : concat (rev (push pairs e)) = concat (rev pairs) ++ [e].
+Proof.
+  destruct pairs as [|p r]; [reflexivity|]. destruct p as [|x [|y q]]; cbn [push rev concat app];
+    rewrite ?concat_app; cbn [concat app]; rewrite ?app_nil_r, <- ?app_assoc; reflexivity.
+Qed.
+
+Lemma data_loop_sound tol t : forall ds pairs cl pairs' cl',
+  data_loop tol t pairs cl ds = Ok (pairs', cl') ->
+  exists matched, cl' = rev matched ++ cl /\ Forall2 (fun d e => matchb tol d e = true /\ In e (vals t)) ds matched /\
+                  concat (rev pairs') = concat (rev pairs) ++ matched.
+Proof.
+  induction ds as [|d ds IH]; intros pairs cl pairs' cl' H; cbn [data_loop] in H.
+  - injection H as <- <-. exists []. rewrite app_nil_r. repeat split; constructor.
+  - destruct (first_match tol d (vals t)) as [e|] eqn:E; [|discriminate].
+    destruct (IH _ _ _ _ H) as [m [E1 [E2 E3]]]. exists (e :: m). cbn [rev]. rewrite <- app_assoc. cbn [app].
+    split; [exact E1|]. destruct (first_match_in _ _ _ _ E) as [Hin Hm].
+    split; [constructor; [split; assumption|exact E2]|]. rewrite E3, push_flat, <- app_assoc. reflexivity.
+Qed.
+
+Lemma index_of_sound t p : forall k i, index_of t p k = Some i -> exists j, i = (k + j)%nat /\ nth_error t j = Some p.
+Proof.
+  induction t as [|q t IH]; intros k i H; [discriminate|]. cbn [index_of] in H.
+  destruct (pair_eqb q p) eqn:Q.
+  - injection H as <-. exists 0%nat. split; [lia|]. unfold pair_eqb in Q. apply andb_true_iff in Q as [Q1 Q2].
+    apply Z.eqb_eq in Q1, Q2. destruct q, p; cbn in *; subst. reflexivity.
+  - destruct (IH _ _ H) as [j [E1 E2]]. exists (S j). split; [lia|exact E2].
+Qed.
+
+Lemma to_syms_sound t : forall pairs syms extra, to_syms t pairs = Ok (syms, extra) ->
+  render_data t syms = concat pairs ++ extra /\ Forall (fun i => (i < length t)%nat) syms.
+Proof.
+  induction pairs as [|p pairs IH]; intros syms extra H; cbn [to_syms] in H.
+  - injection H as <- <-. split; [reflexivity|constructor].
+  - destruct p as [|m [|s [|x q]]]; try discriminate.
+    + destruct pairs; [|discriminate].
+      destruct (find (fun p => fst p =? m) t) as [p|] eqn:Ef; [|discriminate].
+      destruct (index_of t (m, snd p) 0) as [i|] eqn:Ei; [|discriminate]. injection H as <- <-.
+      destruct (index_of_sound _ _ _ _ Ei) as [j [-> Ej]]. cbn [Nat.add].
+      split; [unfold render_data; cbn [flat_map]; unfold sym; rewrite Ej; reflexivity|].
+      constructor; [apply nth_error_Some; congruence|constructor].
+    + destruct (index_of t (m, s) 0) as [i|] eqn:Ei; [|discriminate].
+      destruct (to_syms t pairs) as [[l ex]| | |] eqn:Er; cbn [bind] in H; try discriminate. injection H as <- <-.
+      destruct (IH _ _ eq_refl) as [E1 E2]. destruct (index_of_sound _ _ _ _ Ei) as [j [-> Ej]]. cbn [Nat.add].
+      split; [unfold render_data in *; cbn [flat_map concat]; unfold sym at 1; rewrite Ej, E1, <- app_assoc; reflexivity|].
+      constructor; [apply nth_error_Some; congruence|exact E2].
+Qed.
